@@ -993,6 +993,9 @@ impl<'a, K: Kmer + 'a, D: Debug + 'a> Iterator for NodeKmerIter<'a, K, D> {
             for _ in 0..n {
                 self.next();
             }
+        } else if n >= self.num_kmers - self.kmer_id {
+            // skipping to or past the end exhausts the iterator
+            self.kmer_id = self.num_kmers;
         } else {
             self.kmer_id += n;
             self.kmer = self.node_seq_slice.get_kmer::<K>(self.kmer_id);
